@@ -7,20 +7,25 @@ from lib import common as C
 from py2v import gen
 
 PROP = "C03"
-PROPS_FILES = ["Props/C03.v", "Props/C03_psd.v"]
+PROPS_FILES = ["Props/C03.v", "Props/C03_psd.v", "Props/C03_se_psd.v", "Props/C03_c0_1d_psd.v"]
 ASSUMPTIONS = [
   "real arithmetic (Coq R); float rounding outside the model - the searcher compares with 1e-9 relative tolerance",
   "scipy.spatial.distance pdist 'sqeuclidean' + squareform computes sum_k (u_k - v_k)^2 (translated as that contract)",
-  "positive semi-definiteness of Gram matrices of arbitrary point sets (Schoenberg/Bochner) is NOT proved: only the 2x2 case; larger Gram matrices are decided by the searcher's eigenvalue test",
+  "positive semi-definiteness of n x n Gram matrices is PROVED for the SquareExponential kernel (all n, all dimensions, all point sets and length scales, the three entry points, with noise; "
+  "exp-series + Schur multipliers, Props/C03_se_psd.v) and for the C0 Matern kernel in dimension 1 (min matrices, Props/C03_c0_1d_psd.v); for C0 in dimension >= 2, C2 and C4 only the 2x2 case is "
+  "proved and larger Gram matrices are decided by the searcher's eigenvalue test (Schoenberg/Bochner: the scale-mixture identity is the missing analysis). Multitask Gram matrices are proved PSD given only "
+  "PSD of the physical Gram matrix (the task kernel is SE), unconditionally when the physical kernel is SE too",
   "hyperparameter values enter the model as exact rationals or NaN/inf tags",
 ]
 TRUSTED = ["tools/py2v translator (validated on every run by dual rendering against the vectorised code)", "Model/Hyper.v check function and the harness"]
 LEVEL_TEXT = ("Coq theorems over the definitions regenerated from covariance.py / covariance_base.py / geometry_utils.py / multitask_covariance.py "
               "on every run: documented closed forms alpha*phi(r) for the four kernels, agreement of the pairwise, cross-matrix and symmetric-matrix "
               "entry points (the clamped expansion is the squared distance), noise on the diagonal only, k(x,x)=alpha, symmetry, translation "
-              "invariance, 0<phi<=1 and monotone decrease via the sign of phi', 2x2 positive semi-definiteness, multitask = product; "
+              "invariance, 0<phi<=1 and monotone decrease via the sign of phi', 2x2 positive semi-definiteness for all four kernels and n x n positive semi-definiteness of every "
+              "SquareExponential Gram matrix (with noise; it is even a Schur multiplier: its entrywise product with any PSD matrix is PSD) and of every one-dimensional C0 Gram matrix, multitask = product "
+              "and PSD whenever the physical Gram matrix is; "
               "hyperparameter validation/read-back proved on an executable model tied by exact correspondence")
-LEVEL_NOTE = ("PSD of general Gram matrices is partial (2x2 proved, n x n by eigenvalue search); translator and harness trusted; "
+LEVEL_NOTE = ("PSD of n x n Gram matrices: proved for SE (any dimension) and C0 (dimension 1); Matern C0 (dim >= 2), C2, C4: 2x2 proved, n x n by eigenvalue search; translator and harness trusted; "
               "axioms: the standard-library real-number axioms (sig_not_dec, sig_forall_dec, functional_extensionality_dep, classic)")
 TECHNIQUE = "Coq/Coquelicot proofs on definitions regenerated from source (translator) + in-Coq correspondence for hyperparameter handling"
 DESIGN_REF = "DESIGN.md section 7, C03"
